@@ -450,7 +450,7 @@ static void ProcessFile(char const* pSrcName, int Index) {
 
     if (Verbose >= 1) {
         printf("(");
-        printf(PRIu32, SumLen);
+        printf("%" PRIu32, SumLen);
         printf(" %s)\n", getmessage((SumLen == 1) ? Num_Byte : Num_Bytes));
     }
 }
@@ -662,7 +662,7 @@ int main(int argc, char** argv) {
     }
     if (UndefErr > 0) {
         fprintf(stderr, "\n");
-        fprintf(stderr, PRIu32, UndefErr);
+        fprintf(stderr, "%" PRIu32, UndefErr);
         fprintf(stderr, " %s\n",
                 getmessage((UndefErr == 1) ? Num_SumUndefSymbol : Num_SumUndefSymbols));
         return 1;
